@@ -149,8 +149,12 @@ func New(file io.Reader, profile string) AppArmorLogs {
 			})
 			if len(kv) >= 2 {
 				key, value := kv[0], kv[1]
+				if !strings.HasPrefix(value, `"`) {
+					// Hex encoded value holding a double quote: it could not be decoded in the line
+					value = util.DecodeHexField(key, value)
+				}
 				if slices.Contains(toClean, key) {
-					value = regResolveLogs.Replace(kv[1])
+					value = regResolveLogs.Replace(value)
 				}
 				aa[key] = strings.Trim(value, `"`)
 			}
